@@ -46,6 +46,7 @@ func NewController(topo topo.Store, conns gnmi.ConnManager, proposals proposalst
 	})
 	c.Watch(&ConfigurationWatcher{
 		configurations: configurations,
+		proposals:      proposals,
 	})
 	c.Partition(&Partitioner{})
 	c.Reconcile(&Reconciler{
